@@ -76,6 +76,12 @@ class Ctx:
         self.obs.append(o)
         return o
 
+    def depth(self, quick, thorough):
+        """Size of an exhaustively explored finite range: the thorough tier explores deeper."""
+        v = thorough if self.tier == "thorough" else quick
+        self.counts["depth:%s" % v] = self.counts.get("depth:%s" % v, 0) + 1
+        return v
+
     def count(self, name, n=1):
         self.counts[name] = self.counts.get(name, 0) + n
 
